@@ -51,6 +51,20 @@ def gen_mix(rng, tier, weights=None, sizes=None):
         for body in (src, src.replace("\n", "\r\n")):
             for p in ftlgen.g3_prefixes(body):
                 yield case(p)
+    # identifier CHARACTERS: every identifier kind with each boundary character of the classes a-z A-Z 0-9 _ - (and their
+    # neighbours @ [ ` { / :) as second and as last character
+    for ch in "AZaz09_-MmQ5@[`{/:":
+        for ident in ("x" + ch + "y", "x" + ch):
+            up = ("F" + ch + "N") if (ch.isupper() or ch.isdigit() or ch in "_-") else None
+            yield case("%s = v\n-%s = t\nm = { %s } { -%s } { $%s } { m.%s } { $n ->\n   *[%s] k\n } { FN(%s: 1) }\n    .%s = a\n"
+                       % (ident, ident, ident, ident, ident, ident, ident, ident, ident))
+            if up:
+                yield case("m = { %s() } { %s($x, k: 1) }\n" % (up, up))
+    # pattern lines indented by 255 ... 65540 columns (an indent kept in a narrow integer wraps)
+    for n in (254, 255, 256, 257, 65535, 65536, 65537, 65540) if quick else (254, 255, 256, 257, 65535, 65536, 65537, 65540, 131072, 200000):
+        pad = " " * n
+        yield case("k =\n%sa\n%s  b\n%s{ $x } c\n" % (pad, pad, pad))
+        yield case("k = { $n ->\n%s[a] one\n%s    two\n%s*[b] x\n}\n    .at =\n%sv\n" % (pad, pad, pad, pad))
     # first character of the INPUT: byte order mark, digits, punctuation, lone CR, non-ASCII ... in front of a
     # message, a term, a comment, and as the whole input (offset 0 has no previous line)
     firsts = ["\ufeff", "1", "=", ".", "\t", "\r", "\r\n", "é", "}", "{", " ", "\n", "#", "-", "*", "[", "\"", "\\", "😀"]
